@@ -1221,10 +1221,16 @@ func (e *Engine) execSelect(st *State, fr *Frame, x *ssa.Select) {
 		}
 	}
 	choices := []int{}
+	doneReady := false
 	for i := 0; i < n; i++ {
 		choices = append(choices, i)
+		if x.States[i].Dir == types.RecvOnly {
+			if c, ok := st.doneChan[e.val(st, fr, x.States[i].Chan).S]; ok && st.ctxDone[c] {
+				doneReady = true // a closed Done channel is always ready
+			}
+		}
 	}
-	if !x.Blocking {
+	if !x.Blocking && !doneReady {
 		choices = append(choices, -1)
 	}
 	for _, c := range choices[1:] {
